@@ -169,6 +169,8 @@ int Simulate6502::run(int max_cycles, int step)
 
   printf("Running... Press Ctl-C to break.\n");
 
+  stop_running = false;
+
   while (stop_running == false)
   {
     int pc = reg_pc;
